@@ -175,9 +175,12 @@ class Jar:
     def _resolve(self, obj, newdata):
         st = self.storage
         oid = obj._p_oid
-        old = self._plain_state(st.history[(oid, obj._p_serial)])
-        committed = self._plain_state(st.records[oid][0])
-        new = self._plain_state(newdata)
+        # one placeholder object per referenced oid for the three states of this resolution, as ZODB's
+        # PersistentReferenceFactory does: the C merge compares successor links by identity
+        cache = {}
+        old = self._plain_state(st.history[(oid, obj._p_serial)], cache)
+        committed = self._plain_state(st.records[oid][0], cache)
+        new = self._plain_state(newdata, cache)
         meth = getattr(type(obj), "_p_resolveConflict", None)
         if meth is None:
             raise ConflictError(oid)
@@ -193,10 +196,17 @@ class Jar:
         self._resolved = getattr(self, "_resolved", []) + [obj]
         return f.getvalue()
 
-    def _plain_state(self, data):
+    def _plain_state(self, data, cache=None):
         """state with persistent references as comparable placeholders (ZODB's PersistentReference)"""
+        cache = {} if cache is None else cache
         u = pickle.Unpickler(io.BytesIO(data))
-        u.persistent_load = lambda ref: _Ref(ref)
+
+        def load(ref):
+            key = repr(ref)
+            if key not in cache:
+                cache[key] = _Ref(ref)
+            return cache[key]
+        u.persistent_load = load
         return u.load()[1]
 
     def _abort_objects(self):
